@@ -118,6 +118,20 @@ Section Scope.
                             | Some x => option_eqb N.eqb (v_name x) (Some (fst kv)) && negb (N.eqb (fst kv) 0)
                                         && match v_const x with Some _ => true | None => false end
                                         && (mem (snd kv) (g_inputs z) || negb (N.eqb (v_info x) 0))
+                                        (* an initializer that is not a graph input comes back with a missing type /
+                                           shape filled in from its tensor (serde._deserialize_graph, "Users expect
+                                           initialized values to have shape and type information"): it must have both *)
+                                        && (mem (snd kv) (g_inputs z)
+                                            || match v_const x with
+                                               | Some c => match gett h c with
+                                                           | Some t => N.eqb (match lookup (v_info x) (t_fill t) with
+                                                                              | Some r => r
+                                                                              | None => if N.eqb (v_info x) 0 then t_pay t else v_info x
+                                                                              end) (v_info x)
+                                                           | None => false
+                                                           end
+                                               | None => false
+                                               end)
                             | None => false
                             end) (g_inits z)
       && nodup_N (map fst tbl)
@@ -173,7 +187,14 @@ Definition serializable_b (h : heap) (m : model) : bool :=
                        | Some x => forallb (fun u => mem (fst u) (s_n s)) (v_uses x)
                                    && match v_const x with Some _ => v_init x | None => true end
                        | None => false
-                       end) (s_v s).
+                       end) (s_v s)
+  (* no tensor object is the const_value of two values: the serializer renames the tensor for each value in
+     turn, so a shared tensor ends with the name of the last one, while the round trip yields one tensor per
+     initializer, each with its own name *)
+  && nodup_nat (flat_map (fun v => match getv h v with
+                                   | Some x => match v_const x with Some c => [c] | None => [] end
+                                   | None => []
+                                   end) (s_v s)).
 
 (* ---- the round trip *)
 Definition iso_b (np : list (N * N)) (h : heap) (m : model) : bool :=
